@@ -7,6 +7,7 @@ import Driver.VolD
 import Driver.ResD
 import Driver.MapD
 import Driver.ClmD
+import Driver.PrtD
 /-!
 # op2model — line-protocol driver for the executable model
 
@@ -25,6 +26,7 @@ def handlers : List (String → List String → Option String) :=
   handleRes ::
   handleMap ::
   handleClm ::
+  handlePrt ::
   []
 
 def dispatch (line : String) : String :=
